@@ -23,6 +23,7 @@ def make_case(seed):
     else:
         ch, hist = C.gen_chart(seed, data=True, errors=False, rich=True)
         if seed % 8 == 0: hist = C.long_event_names(ch, hist)      # event names that only differ behind their 72nd character
+        if seed % 5 == 1: C.substring_ids(ch)                     # state ids that are prefixes of one another
     # the external history is sent by the document itself, once, from the first state entered by default
     first = ch.root.states()[0] if not ch.root.initial_attr else ch.by_id[ch.root.initial_attr[0]]
     ch.data['g'] = 0
